@@ -87,10 +87,10 @@ theorem double_ok :
     double P a < P.p ∧ double P a = 2 * a % P.p ∧ dec P (double P a) = 2 * dec P a % P.p :=
   ⟨(double_spec h ha).1, (double_spec h ha).2, dec_double h ha⟩
 
+omit ha in
 /-- REDC -/
 theorem montReduce_ok {T : ℕ} (hT : T < P.p * P.W) :
-    montReduce P T < P.p ∧ montReduce P T * P.W % P.p = T % P.p := by
-  clear ha; exact montReduce_spec h hT
+    montReduce P T < P.p ∧ montReduce P T * P.W % P.p = T % P.p := montReduce_spec h hT
 
 theorem mul_ok (hb : b < P.p) :
     mul P a b < P.p ∧ mul P a b * P.W % P.p = a * b % P.p ∧
@@ -175,8 +175,8 @@ section fq
 variable {a b : ℕ} (ha : a < q) (hb : b < q)
 include ha
 
-theorem fq_zero_one : toFq 0 = 0 ∧ toFq fq_R = 1 := by
-  clear ha; exact ⟨toZp_zero, toZp_R fqP_wf⟩
+omit ha in
+theorem fq_zero_one : toFq 0 = 0 ∧ toFq fq_R = 1 := ⟨toZp_zero, toZp_R fqP_wf⟩
 theorem fq_add (hb : b < q) : add fqP a b < q ∧ toFq (add fqP a b) = toFq a + toFq b :=
   ⟨(add_spec fqP_wf ha hb).1, toZp_add fqP_wf ha hb⟩
 theorem fq_sub (hb : b < q) : sub fqP a b < q ∧ toFq (sub fqP a b) = toFq a - toFq b :=
@@ -217,8 +217,8 @@ section fr
 variable {a b : ℕ} (ha : a < r) (hb : b < r)
 include ha
 
-theorem fr_zero_one : toFr 0 = 0 ∧ toFr fr_R = 1 := by
-  clear ha; exact ⟨toZp_zero, toZp_R frP_wf⟩
+omit ha in
+theorem fr_zero_one : toFr 0 = 0 ∧ toFr fr_R = 1 := ⟨toZp_zero, toZp_R frP_wf⟩
 theorem fr_add (hb : b < r) : add frP a b < r ∧ toFr (add frP a b) = toFr a + toFr b :=
   ⟨(add_spec frP_wf ha hb).1, toZp_add frP_wf ha hb⟩
 theorem fr_sub (hb : b < r) : sub frP a b < r ∧ toFr (sub frP a b) = toFr a - toFr b :=
@@ -264,7 +264,7 @@ example : double fqP (enc fqP (q - 1)) = enc fqP (q - 2) := by decide +kernel
 example : mul fqP (enc fqP 3) (enc fqP 5) = enc fqP 15 := by decide +kernel
 example : square frP (enc frP (r - 2)) = enc frP 4 := by decide +kernel
 example : pow fqP (enc fqP 2) [10] = enc fqP 1024 ∧ pow fqP (enc fqP 2) [] = fq_R ∧
-    pow frP (enc frP 2) [0, 1] = enc frP (2 ^ 64) := by decide +kernel
+    pow frP (enc frP 2) [0, 1] = enc frP (powMod 2 (2 ^ 64) r) := by decide +kernel
 example : fromRepr fqP 7 = some (enc fqP 7) ∧ intoRepr fqP (enc fqP 7) = 7 ∧
     fromRepr fqP q = none ∧ fromRepr fqP (q - 1) = some NEGATIVE_ONE := by decide +kernel
 example : inverse fqP (enc fqP 2) = some (some (enc fqP ((q + 1) / 2))) ∧
@@ -290,6 +290,17 @@ theorem fq_frobenius_literals_reduced :
 theorem fr_literals_reduced :
     fr_R < r ∧ fr_R2 < r ∧ fr_GENERATOR < r ∧ fr_ROOT_OF_UNITY < r ∧ F_2_192 < r := fr_raw_lt
 
+/-- the raw literals of the hash-to-curve maps (SSWU / isogeny constants) are reduced as well -/
+theorem map_literals_reduced :
+    G1_ELLP_A < q ∧ G1_ELLP_B < q ∧ G1_XI < q ∧ G1_SQRT_M_XI_CUBED < q ∧
+    (G2_ELLP_A.1 < q ∧ G2_ELLP_A.2 < q) ∧ (G2_ELLP_B.1 < q ∧ G2_ELLP_B.2 < q) ∧
+    (G2_XI.1 < q ∧ G2_XI.2 < q) ∧
+    (∀ x ∈ G2_ETAS, x.1 < q ∧ x.2 < q) ∧ (∀ x ∈ G2_ROOTS_OF_UNITY, x.1 < q ∧ x.2 < q) ∧
+    (∀ x ∈ ISO11_XNUM, x < q) ∧ (∀ x ∈ ISO11_XDEN, x < q) ∧
+    (∀ x ∈ ISO11_YNUM, x < q) ∧ (∀ x ∈ ISO11_YDEN, x < q) ∧
+    (∀ x ∈ ISO3_XNUM, x.1 < q ∧ x.2 < q) ∧ (∀ x ∈ ISO3_XDEN, x.1 < q ∧ x.2 < q) ∧
+    (∀ x ∈ ISO3_YNUM, x.1 < q ∧ x.2 < q) ∧ (∀ x ∈ ISO3_YDEN, x.1 < q ∧ x.2 < q) := maps_raw_lt
+
 /-- the named `Fq` literals as Montgomery encodings (inverse-free form `raw = x·2^384 mod q`) -/
 theorem fq_literals :
     B_COEFF = 4 * 2 ^ 384 % q ∧ NEGATIVE_ONE = (q - 1) * 2 ^ 384 % q ∧
@@ -304,17 +315,16 @@ theorem fq_literals_dec :
     dec fqP F_2_256 = 2 ^ 256 ∧ dec fqP fq_GENERATOR = 2 ∧ dec fqP fq_ROOT_OF_UNITY = q - 1 :=
   ⟨dec_fq_R, dec_B_COEFF, dec_NEGATIVE_ONE, dec_F_2_256, dec_fq_GENERATOR, dec_fq_ROOT_OF_UNITY⟩
 
+/-- `frOmega = 7^((r−1)/2^32) mod r` -/
 theorem fr_literals :
     F_2_192 = 2 ^ 192 * 2 ^ 256 % r ∧ fr_GENERATOR = frGenerator * 2 ^ 256 % r ∧ frGenerator = 7 ∧
-    fr_ROOT_OF_UNITY = (7 ^ ((r - 1) / 2 ^ 32) % r) * 2 ^ 256 % r := by
-  refine ⟨F_2_192_eq, fr_GENERATOR_eq, rfl, ?_⟩
-  rw [← frOmega_eq]; exact fr_ROOT_OF_UNITY_eq
+    fr_ROOT_OF_UNITY = frOmega * 2 ^ 256 % r ∧ frOmega = 7 ^ ((r - 1) / 2 ^ 32) % r :=
+  ⟨F_2_192_eq, fr_GENERATOR_eq, rfl, fr_ROOT_OF_UNITY_eq, frOmega_eq⟩
 
 theorem fr_literals_dec :
     dec frP fr_R = 1 ∧ dec frP F_2_192 = 2 ^ 192 ∧ dec frP fr_GENERATOR = 7 ∧
-    dec frP fr_ROOT_OF_UNITY = 7 ^ ((r - 1) / 2 ^ 32) % r := by
-  refine ⟨dec_fr_R, dec_F_2_192, dec_fr_GENERATOR, ?_⟩
-  rw [← frOmega_eq]; exact dec_fr_ROOT_OF_UNITY
+    dec frP fr_ROOT_OF_UNITY = frOmega :=
+  ⟨dec_fr_R, dec_F_2_192, dec_fr_GENERATOR, dec_fr_ROOT_OF_UNITY⟩
 
 /-- the decoded `Fr::ROOT_OF_UNITY` has multiplicative order exactly `2^32` -/
 theorem fr_root_of_unity_order :
@@ -326,11 +336,8 @@ theorem fr_root_of_unity_order :
 
 /-- the decoded `Fq::ROOT_OF_UNITY` is `−1 = 2^((q−1)/2)`, of order `2 = 2^S` -/
 theorem fq_root_of_unity :
-    dec fqP fq_ROOT_OF_UNITY = q - 1 ∧ 2 ^ ((q - 1) / 2) % q = q - 1 ∧ (q - 1) ^ 2 % q = 1 := by
-  refine ⟨dec_fq_ROOT_OF_UNITY, ?_, by decide +kernel⟩
-  have := fq_ROOT_OF_UNITY_pow
-  rw [powMod_eq_pow_mod _ _ _ q_pos] at this
-  exact this
+    dec fqP fq_ROOT_OF_UNITY = q - 1 ∧ 2 ^ ((q - 1) / 2) % q = q - 1 ∧ (q - 1) ^ 2 % q = 1 :=
+  ⟨dec_fq_ROOT_OF_UNITY, fq_ROOT_OF_UNITY_pow, by decide +kernel⟩
 
 /-- exponents used by `legendre` / `sqrt` -/
 theorem exponents :
@@ -345,5 +352,151 @@ theorem exponents :
 theorem ofMont_eq (raw : ℕ) :
     (Fq.ofMont raw).v = dec fqP raw ∧ (Fr.ofMont raw).v = dec frP raw :=
   ⟨Fq_ofMont_v raw, Fr_ofMont_v raw⟩
+
+/-! ## 4. The representation type `FqRepr([u64; 6])` / `FrRepr([u64; 4])`
+A repr is a little-endian list of `n` limbs `< 2^64` (`Repr n a`); its value is `limbsToNat a`.
+Every statement holds for any `n`; `n = 6` gives 384-bit, `n = 4` gives 256-bit integers. -/
+
+open PP.Limbs
+
+/-- a well-formed `n`-limb representation -/
+def Repr (n : ℕ) (a : List ℕ) : Prop := LimbsOK a ∧ a.length = n
+
+/-- reprs of `n` limbs are exactly the integers below `2^(64n)`:
+    `limbsToNat` and `limbsOf n` are mutually inverse -/
+theorem repr_bijection (n : ℕ) :
+    (∀ a, Repr n a → limbsToNat a < 2 ^ (64 * n) ∧ limbsOf n (limbsToNat a) = a) ∧
+    (∀ x, Repr n (limbsOf n x) ∧ limbsToNat (limbsOf n x) = x % 2 ^ (64 * n)) :=
+  ⟨fun _ ⟨ha, hl⟩ => ⟨hl ▸ limbsToNat_lt ha, limbsOf_limbsToNat ha hl⟩,
+   fun x => ⟨⟨limbsOf_ok n x, limbsOf_length n x⟩, limbsToNat_limbsOf n x⟩⟩
+
+section repr
+variable {n : ℕ} {a b : List ℕ} (ha : Repr n a) (hb : Repr n b)
+include ha
+
+/-- `add_nocarry`: addition modulo `2^(64n)`, exact under the no-carry precondition -/
+theorem add_nocarry_ok (hb : Repr n b) :
+    Repr n (addNocarry a b 0) ∧
+    limbsToNat (addNocarry a b 0) = (limbsToNat a + limbsToNat b) % 2 ^ (64 * n) ∧
+    (limbsToNat a + limbsToNat b < 2 ^ (64 * n) →
+      limbsToNat (addNocarry a b 0) = limbsToNat a + limbsToNat b) := by
+  obtain ⟨ha1, ha2⟩ := ha; obtain ⟨hb1, hb2⟩ := hb
+  have hl : a.length = b.length := by omega
+  subst ha2
+  exact ⟨⟨addNocarry_ok a b 0, addNocarry_length 0 hl⟩, limbsToNat_addNocarry hl,
+    limbsToNat_addNocarry_of_lt hl⟩
+
+/-- `sub_noborrow`: subtraction modulo `2^(64n)`, exact under the no-borrow precondition -/
+theorem sub_noborrow_ok (hb : Repr n b) :
+    Repr n (subNoborrow a b 0) ∧
+    limbsToNat (subNoborrow a b 0)
+      = (limbsToNat a + 2 ^ (64 * n) - limbsToNat b) % 2 ^ (64 * n) ∧
+    (limbsToNat b ≤ limbsToNat a →
+      limbsToNat (subNoborrow a b 0) = limbsToNat a - limbsToNat b) := by
+  obtain ⟨ha1, ha2⟩ := ha; obtain ⟨hb1, hb2⟩ := hb
+  have hl : a.length = b.length := by omega
+  subst ha2
+  exact ⟨⟨subNoborrow_ok a b 0, subNoborrow_length 0 hl⟩, limbsToNat_subNoborrow ha1 hb1 hl,
+    limbsToNat_subNoborrow_of_le ha1 hb1 hl⟩
+
+/-- `div2` halves -/
+theorem div2_ok : Repr n (div2 a) ∧ limbsToNat (div2 a) = limbsToNat a / 2 :=
+  ⟨⟨Limbs.div2_ok ha.1, by rw [div2_length, ha.2]⟩, limbsToNat_div2 ha.1⟩
+
+/-- `mul2` doubles modulo `2^(64n)` -/
+theorem mul2_ok : Repr n (mul2 a) ∧ limbsToNat (mul2 a) = limbsToNat a * 2 % 2 ^ (64 * n) :=
+  ⟨⟨Limbs.mul2_ok ha.1, by rw [mul2_length, ha.2]⟩, by rw [limbsToNat_mul2 ha.1, ha.2]⟩
+
+/-- `shr(k)` for every `k` (`k ≥ 64n` gives zero) -/
+theorem shr_ok (k : ℕ) : Repr n (shr a k) ∧ limbsToNat (shr a k) = limbsToNat a / 2 ^ k :=
+  ⟨⟨Limbs.shr_ok ha.1 k, by rw [shr_length, ha.2]⟩, limbsToNat_shr ha.1 k⟩
+
+/-- `shl(k)` for every `k`, modulo `2^(64n)` -/
+theorem shl_ok (k : ℕ) :
+    Repr n (shl a k) ∧ limbsToNat (shl a k) = limbsToNat a * 2 ^ k % 2 ^ (64 * n) :=
+  ⟨⟨Limbs.shl_ok ha.1 k, by rw [shl_length, ha.2]⟩, by rw [limbsToNat_shl ha.1 k, ha.2]⟩
+
+/-- `num_bits` is the bit length: `0` for `0`, else `⌊log₂ A⌋ + 1`; equivalently the least `k`
+    with `A < 2^k` -/
+theorem numBits_ok :
+    numBits a = (if limbsToNat a = 0 then 0 else Nat.log2 (limbsToNat a) + 1) ∧
+    limbsToNat a < 2 ^ numBits a ∧ (limbsToNat a ≠ 0 → 2 ^ (numBits a - 1) ≤ limbsToNat a) ∧
+    numBits a ≤ 64 * n :=
+  ⟨numBits_eq ha.1, lt_two_pow_numBits ha.1, two_pow_numBits_le ha.1, ha.2 ▸ numBits_le ha.1⟩
+
+omit ha in
+/-- parity and zero test (no well-formedness needed) -/
+theorem isOdd_isZero_ok (a : List ℕ) :
+    isOdd a = (limbsToNat a % 2 == 1) ∧ (isZero a = true ↔ limbsToNat a = 0) :=
+  ⟨isOdd_eq a, isZero_iff a⟩
+
+/-- `Ord for Repr` compares the integers -/
+theorem cmp_repr_ok (hb : Repr n b) :
+    Mont.cmp a b = if limbsToNat a < limbsToNat b then -1
+      else if limbsToNat a > limbsToNat b then 1 else 0 :=
+  cmp_eq ha.1 hb.1 (by rw [ha.2, hb.2])
+
+end repr
+
+/-- `read_be`/`write_be`, `read_le`/`write_le` (byte strings of any length `len`; `len = 8n` for an
+    `n`-limb repr): mutually inverse conversions between `len` bytes and integers `< 256^len` -/
+theorem bytes_ok (len : ℕ) :
+    (∀ x, (beBytes len x).length = len ∧ beToNat (beBytes len x) = x % 256 ^ len) ∧
+    (∀ bs : Bytes, bs.length = len → beToNat bs < 256 ^ len ∧ beBytes len (beToNat bs) = bs) ∧
+    (∀ x, (leBytes len x).length = len ∧ leToNat (leBytes len x) = x % 256 ^ len) ∧
+    (∀ bs : Bytes, bs.length = len → leToNat bs < 256 ^ len ∧ leBytes len (leToNat bs) = bs) :=
+  ⟨fun x => ⟨beBytes_length len x, beToNat_beBytes len x⟩,
+   fun bs hl => ⟨hl ▸ beToNat_lt bs, beBytes_beToNat hl⟩,
+   fun x => ⟨leBytes_length len x, leToNat_leBytes len x⟩,
+   fun bs hl => ⟨hl ▸ leToNat_lt bs, leBytes_leToNat hl⟩⟩
+
+/-- the bit iterator used by `pow` reads the binary expansion of the limbs, most significant first -/
+theorem bitsMSB_ok (ls : List ℕ) (hok : LimbsOK ls) :
+    (bitsMSB ls).foldl (fun acc b => 2 * acc + b.toNat) 0 = limbsToNat ls :=
+  bitsVal_bitsMSB_ok ls hok
+
+/-- consistency of the two levels of the model: the integer-level `add` of `PP.Mont` is the
+    limb-level `add_nocarry` followed by the conditional `sub_noborrow(MODULUS)` -/
+theorem add_via_limbs {P : Params} (h : P.WF) {a b : ℕ} (ha : a < P.p) (hb : b < P.p) :
+    add P a b =
+      (let s := addNocarry (limbsOf P.limbs a) (limbsOf P.limbs b) 0
+       if Mont.cmp s (limbsOf P.limbs P.p) = -1 then limbsToNat s
+       else limbsToNat (subNoborrow s (limbsOf P.limbs P.p) 0)) := by
+  have hpW := h.p_lt_W
+  have hW : P.W = 2 ^ (64 * P.limbs) := rfl
+  have hra := (repr_bijection P.limbs).2 a
+  have hrb := (repr_bijection P.limbs).2 b
+  have hrp := (repr_bijection P.limbs).2 P.p
+  rw [← hW] at hra hrb hrp
+  rw [Nat.mod_eq_of_lt (by omega)] at hra hrb hrp
+  obtain ⟨s1, s2, _⟩ := add_nocarry_ok hra.1 hrb.1
+  rw [hra.2, hrb.2, ← hW] at s2
+  obtain ⟨_, t2, _⟩ := sub_noborrow_ok s1 hrp.1
+  rw [hrp.2, ← hW] at t2
+  have hc := cmp_repr_ok s1 hrp.1
+  rw [hrp.2] at hc
+  simp only
+  rw [hc, t2, s2]
+  unfold add reduce
+  by_cases hlt : (a + b) % P.W < P.p
+  · simp [hlt]
+  · have : ¬ ((-1 : ℤ) = 1) := by decide
+    by_cases hgt : (a + b) % P.W > P.p <;> simp [hlt, hgt]
+
+/-! ### non-vacuity for the repr level -/
+
+example : Repr 6 (limbsOf 6 q) ∧ limbsToNat (limbsOf 6 q) = q := by
+  refine ⟨((repr_bijection 6).2 q).1, ?_⟩; decide +kernel
+example : limbsToNat (addNocarry (limbsOf 6 q) (limbsOf 6 q) 0) = 2 * q ∧
+    limbsToNat (subNoborrow (limbsOf 6 q) (limbsOf 6 5) 0) = q - 5 ∧
+    limbsToNat (subNoborrow (limbsOf 4 5) (limbsOf 4 r) 0) = 2 ^ 256 + 5 - r ∧
+    limbsToNat (div2 (limbsOf 6 q)) = q / 2 ∧ limbsToNat (mul2 (limbsOf 4 r)) = 2 * r ∧
+    limbsToNat (shr (limbsOf 6 q) 129) = q / 2 ^ 129 ∧ limbsToNat (shr (limbsOf 6 q) 384) = 0 ∧
+    limbsToNat (shl (limbsOf 6 q) 70) = q * 2 ^ 70 % 2 ^ 384 ∧
+    numBits (limbsOf 6 q) = 381 ∧ numBits (limbsOf 4 r) = 255 ∧ numBits (limbsOf 4 0) = 0 ∧
+    isOdd (limbsOf 6 q) = true ∧ isZero (limbsOf 6 q) = false ∧
+    Mont.cmp (limbsOf 6 q) (limbsOf 6 fq_R) = 1 := by decide +kernel
+example : beToNat (beBytes 48 q) = q ∧ leToNat (leBytes 32 r) = r ∧
+    beBytes 2 0x1234 = [0x12, 0x34] ∧ leBytes 2 0x1234 = [0x34, 0x12] := by decide +kernel
 
 end PP.Props.C08
